@@ -184,6 +184,7 @@ func blockedStacks(all string) string {
 // occurrence instead of by global position keeps a plan meaningful when unrelated goroutines are
 // scheduled in a different order.
 type preemptCtl struct {
+	mu     sync.Mutex
 	plan   map[string]bool
 	counts map[string]int
 	seen   []string
@@ -198,16 +199,22 @@ func installPreempt(plan []string) *preemptCtl {
 		p.plan[k] = true
 	}
 	vsel.SetYielder(func(site string) {
+		p.mu.Lock()
 		if !p.armed {
+			p.mu.Unlock()
 			return
 		}
 		p.counts[site]++
 		key := fmt.Sprintf("%s#%d", site, p.counts[site])
 		p.seen = append(p.seen, key)
+		var c chan struct{}
 		if p.plan[key] {
 			p.hit = append(p.hit, key)
-			c := make(chan struct{})
+			c = make(chan struct{})
 			p.parked = append(p.parked, c)
+		}
+		p.mu.Unlock()
+		if c != nil {
 			<-c
 		}
 	})
@@ -217,11 +224,14 @@ func installPreempt(plan []string) *preemptCtl {
 func (p *preemptCtl) settle() {
 	for {
 		synctest.Wait()
+		p.mu.Lock()
 		if len(p.parked) == 0 {
+			p.mu.Unlock()
 			return
 		}
 		c := p.parked[0]
 		p.parked = p.parked[1:]
+		p.mu.Unlock()
 		close(c)
 	}
 }
